@@ -91,7 +91,9 @@ Definition sec_of (p : proto) : string :=
 (* the sections get_settings inspects, in the order of its `or` chain *)
 Definition lookup_secs : list string := ["airplay"; "companion"; "dmap"; "mrp"; "raop"].
 
-Record service := { sproto : proto; sid : option str; screds : option str; spw : option str }.
+(* senabled: BaseService.enabled.  Nothing in the storage reads it: the identifiers, credentials
+   and passwords of disabled services are recorded, matched and applied like all others. *)
+Record service := { sproto : proto; sid : option str; screds : option str; spw : option str; senabled : bool }.
 Definition cfg := list service.
 
 (* BaseConfig.all_identifiers *)
@@ -147,7 +149,8 @@ Definition apply_one (r : rec) (s : service) : service :=
   let sec := get_sec r (sec_of (sproto s)) in
   {| sproto := sproto s; sid := sid s;
      screds := or_else (assoc "credentials" sec) (screds s);
-     spw := or_else (assoc "password" sec) (spw s) |}.
+     spw := or_else (assoc "password" sec) (spw s);
+     senabled := senabled s |}.
 
 Definition apply_rec (r : rec) (c : cfg) : cfg := map (apply_one r) c.
 
@@ -388,7 +391,7 @@ Definition ostr_eqb := opt_beq str_eqb.
 
 Definition service_eqb (a b : service) : bool :=
   proto_eqb (sproto a) (sproto b) && ostr_eqb (sid a) (sid b)
-  && ostr_eqb (screds a) (screds b) && ostr_eqb (spw a) (spw b).
+  && ostr_eqb (screds a) (screds b) && ostr_eqb (spw a) (spw b) && Bool.eqb (senabled a) (senabled b).
 
 Definition exn_eqb (a b : exn) : bool :=
   match a, b with
